@@ -463,3 +463,22 @@ PROPS = {
                         "unsafe string view of GetString is the same memory as the byte view modelled here.",
              technique="Lean 4 proof (inductive invariant over a heap model) + differential correspondence on the real reader's layout"),
 }
+
+
+# ---- tie theorems: pkg/buffer translated from the source on every run (go/translate -> Pw/Generated/Trans.lean)
+# and proved equal to the definitions the model uses in its place (DESIGN §4.3).
+_T = "Pw.Tie."
+TIE_ACCESSORS = [_T + n for n in ("tie_GetBytes", "tie_GetUint16", "tie_GetUint32", "tie_GetString", "tie_GetPrepareType")]
+TIE_LAYOUT = [_T + n for n in ("tie_reset", "resetSpec_heap", "resetSpec_frame", "adv_heap")]
+TIE_READ = [_T + n for n in ("tie_ReadType", "tie_ReadMsgSize_full", "tie_ReadMsgSize_short", "ioReadFullSl_enough", "ioReadFullSl_short")]
+TIE_FRAMING = [_T + n for n in ("tie_ReadUntypedMsg_ok", "tie_ReadUntypedMsg_big", "tie_ReadTypedMsg_msg")]
+TIE_WRITER = [_T + n for n in ("tie_Writer_Reset", "tie_Writer_Start", "tie_Writer_AddByte", "tie_Writer_AddNullTerminate",
+                               "tie_Writer_AddBytes", "tie_Writer_AddString", "tie_Writer_AddInt16", "tie_Writer_AddInt32",
+                               "tie_Writer_End_err", "tie_Writer_End_ok", "putbuf_init")]
+PROPS["C02"].update(tie=["TieWriter"], tie_theorems=TIE_WRITER)
+PROPS["C03"].update(tie=["Tie", "TieFraming"], tie_theorems=TIE_ACCESSORS + TIE_READ + TIE_FRAMING)
+PROPS["C04"].update(tie=["Tie", "TieFraming", "TieWriter"], tie_theorems=TIE_ACCESSORS + TIE_LAYOUT + TIE_READ + TIE_FRAMING + TIE_WRITER)
+PROPS["C05"].update(tie=["TieWriter"], tie_theorems=TIE_WRITER)
+PROPS["C09"].update(tie=["TieWriter"], tie_theorems=TIE_WRITER)
+PROPS["C10"].update(tie=["Tie", "TieFraming"], tie_theorems=TIE_READ + TIE_FRAMING)
+PROPS["C18"].update(tie=["Tie"], tie_theorems=TIE_ACCESSORS + TIE_LAYOUT)
